@@ -253,6 +253,24 @@ impl Prop for C09 {
                 }
             }
         }
+        // COMPONENTS OF inside anonymous nested types: two components / alternatives that both use it, the element
+        // type of SEQUENCE OF / SET OF (top level and as a component)
+        {
+            let x = "Xx ::= SEQUENCE { x1 BOOLEAN, x2 INTEGER OPTIONAL }";
+            let y = "Yy ::= SEQUENCE { y1 NULL }";
+            let (xi, yi) = ("x1 BOOLEAN, x2 INTEGER OPTIONAL", "y1 NULL");
+            for (lab, sug, exp) in [
+                ("two-components", "Mid ::= SEQUENCE { p SEQUENCE { COMPONENTS OF Xx }, q SEQUENCE { COMPONENTS OF Yy } }".to_string(), format!("Mid ::= SEQUENCE {{ p SEQUENCE {{ {xi} }}, q SEQUENCE {{ {yi} }} }}")),
+                ("three-components", "Mid ::= SET { o BOOLEAN, p SEQUENCE { COMPONENTS OF Xx }, q SET { COMPONENTS OF Yy }, r SEQUENCE { COMPONENTS OF Xx } }".to_string(), format!("Mid ::= SET {{ o BOOLEAN, p SEQUENCE {{ {xi} }}, q SET {{ {yi} }}, r SEQUENCE {{ {xi} }} }}")),
+                ("two-alternatives", "Mid ::= CHOICE { p SEQUENCE { COMPONENTS OF Xx }, q SEQUENCE { COMPONENTS OF Yy } }".to_string(), format!("Mid ::= CHOICE {{ p SEQUENCE {{ {xi} }}, q SEQUENCE {{ {yi} }} }}")),
+                ("seqof-element", "Mid ::= SEQUENCE OF SEQUENCE { COMPONENTS OF Xx }".to_string(), format!("Mid ::= SEQUENCE OF SEQUENCE {{ {xi} }}")),
+                ("setof-element", "Mid ::= SET OF SEQUENCE { COMPONENTS OF Xx }".to_string(), format!("Mid ::= SET OF SEQUENCE {{ {xi} }}")),
+                ("seqof-component", "Mid ::= SEQUENCE { l SEQUENCE OF SEQUENCE { COMPONENTS OF Xx }, m SET OF SET { COMPONENTS OF Yy } }".to_string(), format!("Mid ::= SEQUENCE {{ l SEQUENCE OF SEQUENCE {{ {xi} }}, m SET OF SET {{ {yi} }} }}")),
+                ("nested-twice", "Mid ::= SEQUENCE { p SEQUENCE { q SEQUENCE { COMPONENTS OF Xx }, r SEQUENCE { COMPONENTS OF Yy } } }".to_string(), format!("Mid ::= SEQUENCE {{ p SEQUENCE {{ q SEQUENCE {{ {xi} }}, r SEQUENCE {{ {yi} }} }} }}")),
+            ] {
+                push("components-of", format!("components-of|nested|{lab}"), vec![x.to_string(), y.to_string(), sug], vec![x.to_string(), y.to_string(), exp], vec!["Mid"]);
+            }
+        }
         // ---- (c) parameterized types
         for pool in ["Aaa", "Zzz"] {
             let p1 = format!("{pool} {{ T }} ::= SEQUENCE {{ v T, n INTEGER }}");
